@@ -90,6 +90,7 @@ func (c *Ctx) Begin(op string) {
 func (c *Ctx) PropFail(class, desc, op string) {
 	desc = strings.NewReplacer("\t", "\\t", "\n", "\\n").Replace(desc)
 	fmt.Fprintf(c.prop, "%s\t%s\t%s\n", class, desc, op)
+	c.prop.Flush() // survive a later death of the process
 	c.nProp++
 }
 func (c *Ctx) H(bucket string) { c.Hist[bucket]++ }
